@@ -27,7 +27,8 @@ type params struct {
 	MinLen int64   `json:"min_len"`
 	MaxLen int64   `json:"max_len"`
 	Depth  int     `json:"depth"`
-	Seq    []write `json:"seq,omitempty"` // random mode / replay of a minimal witness
+	Seq    []write `json:"seq,omitempty"`              // random mode / replay of a minimal witness
+	Base   int64   `json:"high_region_base,omitempty"` // mode huge: the high region is [Base-20, Base+64)
 }
 
 func gen22(seed int64, tier string) []drv.Case {
@@ -54,6 +55,25 @@ func gen22(seed int64, tier string) []drv.Case {
 		for l := int64(0); l <= 2; l++ {
 			add("exh-zero-o4-l2-d4", params{Mode: "exhaustive", First: &write{o, l}, MaxOff: 4, MinLen: 0, MaxLen: 2, Depth: 4})
 		}
+	}
+	// files larger than 4 GiB: writes around 2^31, 2^32, 2^33 and 2^40 (also straddling those marks) mixed with writes
+	// at the beginning of the file
+	nh := 120
+	if tier == "thorough" {
+		nh = 4000
+	}
+	rh := gen.Rand(seed, "c22-huge")
+	for i := 0; i < nh; i++ {
+		base := []int64{1 << 31, 1 << 32, 1 << 32, 1 << 33, 1 << 40}[rh.Intn(5)]
+		var seq []write
+		for j := 0; j < 2+rh.Intn(6); j++ {
+			if rh.Intn(3) == 0 {
+				seq = append(seq, write{int64(rh.Intn(30)), 1 + int64(rh.Intn(12))})
+			} else {
+				seq = append(seq, write{base - 20 + int64(rh.Intn(40)), 1 + int64(rh.Intn(12))})
+			}
+		}
+		add("huge-offsets", params{Mode: "huge", Seq: seq, Base: base})
 	}
 	// random long sequences
 	n := 400
@@ -177,6 +197,58 @@ func run22(c drv.Case, res *drv.Result) {
 		res.Violate(kind, sig, "after writes %s: %s", seqStr(seq), msg)
 	}
 	switch p.Mode {
+	case "huge":
+		t := filetracker.VerifNewTFile()
+		written := map[int64]bool{}
+		lo, hiEnd := p.Base-20, p.Base+64
+		get := func(i int64) bool { return written[i] }
+		// cells where the classification may change: both regions and their edges
+		var cells []int64
+		for i := int64(0); i <= 64; i++ {
+			cells = append(cells, i)
+		}
+		for i := lo - 1; i <= hiEnd+1; i++ {
+			cells = append(cells, i)
+		}
+		for wi, w := range p.Seq {
+			t.VerifTrackWrite(w.Off, w.Len)
+			for i := w.Off; i < w.Off+w.Len; i++ {
+				written[i] = true
+			}
+			for _, o := range cells {
+				if o < 0 {
+					continue
+				}
+				for _, L := range []int64{1, 2, 50, 1 << 33, math.MaxInt64 - o} {
+					queries++
+					n, mod := t.VerifGetRangeToRead(o, L)
+					bad := ""
+					switch {
+					case mod != get(o) && get(o):
+						bad = "modified-reported-as-base"
+					case mod != get(o):
+						bad = "base-reported-as-modified"
+					case n < 1 || n > L:
+						bad = "bad-length"
+					default:
+						for _, c := range cells {
+							if c > o && c < o+n && get(c) != get(o) {
+								bad = "range-crosses-boundary"
+								break
+							}
+						}
+					}
+					if bad != "" {
+						res.Violate(bad, "huge-offsets", "after writes %s: getRangeToRead(%d,%d)=(%d,modified=%v), offset written=%v (high region around %d)", seqStr(p.Seq[:wi+1]), o, L, n, mod, get(o), p.Base)
+						res.Canon = seqStr(p.Seq)
+						return
+					}
+				}
+			}
+		}
+		res.Nontrivial = len(p.Seq) >= 2
+		res.Canon = seqStr(p.Seq) + fmt.Sprint(p.Base)
+		res.Sample = map[string]interface{}{"writes": seqStr(p.Seq), "queries": queries, "high_region_base": p.Base}
 	case "random":
 		t := filetracker.VerifNewTFile()
 		var bm []bool
